@@ -124,3 +124,15 @@ def pubkey_of_seed(seed: bytes) -> bytes:
 
 def bool_of(item: bytes) -> bool:
     return int.from_bytes(item, 'big') > 0
+
+
+def as_key_arg(kind: str, raw: bytes, how: str):
+    """The builders accept keys as bytes or as PyNaCl objects: hand them over the
+    way this run's knob says ('bytes' / 'object')."""
+    if how != 'object':
+        return raw
+    from nacl.signing import SigningKey, VerifyKey
+    return SigningKey(raw) if kind == 'prv' else VerifyKey(raw)
+
+
+PREFIXES = ['', '', '', 'push d1 pop0', 'true not pop0', '# a comment # push x00 pop0']
